@@ -270,7 +270,7 @@ def main(argv):
     def eval_shards(pid, shards, header, footer, extra_q=(), timeout=900):
         return orig_eval(pid, shards, header, footer, extra_q=(("gen/params", "VFP"),), timeout=timeout)
 
-    def write_overlay(path):
+    def write_overlay(path, test=None):
         rep = {}
         for f in glob.glob(os.path.join(L.REPO, "*_test.go")):
             rep[f] = ""
